@@ -61,7 +61,7 @@ Definition with_index {A} (l : list A) : list (N * A) := combine (map N.of_nat (
 (* error codes (second component):
      1 C route() <> kernel model        2 C route() <> expected(Go Match)       3 kernel model <> expected(userspace model)
      4 Go Match <> userspace model (C01)   5 builder bytes <> enc_mset           6 ring / rewrite / keys / meta <> model
-     7 domain_routing entry <> model    9 outside the partial theorem's process-name hypothesis (informational, with 2) *)
+     7 domain_routing entry <> model    9 probe outside the quantifier: a LAN probe that carries a process name (informational, with 2) *)
 Definition check_packets (c : obs_case) (alloc : N) : list (N * N) :=
   let ms := oc_msets c in let tries := oc_tries c in
   List.concat (map (fun ip : N * obs_packet =>
@@ -78,7 +78,7 @@ Definition check_packets (c : obs_case) (alloc : N) : list (N * N) :=
      end) ++
     (if res_eqb (op_go o) um then [] else [(i, 4)]) ++
     (if odec_eqb (decode_word (op_c o)) exp_go then []
-     else (i, 2) :: (if pname_guard_ok ms pk (op_wan o) then [] else [(i, 9)])) ++
+     else (i, 2) :: (if probe_ok pk (op_wan o) then [] else [(i, 9)])) ++
     match kernel_word ms tries alloc dom pk (op_wan o) with
     | Err _ => [(i, 1)]
     | Ok kw =>
